@@ -990,6 +990,141 @@ def check_C16(tier, seed):
     return v.finish(tier, seed, "model_checking", cov, KV_ASSUME + L1_ASSUME[3:])
 
 
+def check_C15(tier, seed):
+    """files of the pinned release (and their legacy-header variants) stay readable"""
+    import l1
+    v = Verdict("C15")
+    mc = mc_kv("quick")
+    build_harness()
+    gold = os.path.join(VERIF, "golden")
+    files = []
+    for ps in (1024, 4096, 5000, 16384):
+        files.append((os.path.join(gold, "golden-%d.db" % ps), os.path.join(gold, "golden-%d.json" % ps), False))
+        files.append((os.path.join(gold, "golden-%d-legacy.db" % ps), os.path.join(gold, "golden-%d.json" % ps), True))
+    stats = dict(events=0, states=0, files=0)
+    samples = []
+    rounds = 1 if tier == "quick" else 6
+    for fdb, fjs, legacy in files:
+        for rnd in range(rounds):
+            out = os.path.join(scratch(), "golden.out")
+            tf = os.path.join(scratch(), "golden.trace")
+            p = run_jvh(["golden", "--file", fdb, "--expect", fjs, "--out", out, "--trace-out", tf,
+                         "--len", 35 if tier == "quick" else 80, "--seed", seed * 10 + rnd, "--strict", rnd % 2])
+            name = os.path.basename(fdb)
+            if p.returncode != 0:
+                v.report({"kind": "hang" if p.returncode == 86 else "abort", "rc": p.returncode, "file": name},
+                         {"file": fdb, "stderr": p.stderr[-1200:], "how": "jvh golden --file %s --expect %s" % (fdb, fjs)})
+            res = json.load(open(out)) if os.path.exists(out) else {"problems": [], "mismatch": []}
+            for pr in res["problems"]:
+                cls = ("open" if pr.startswith("open:") else "content" if "content differs" in pr else
+                       "check" if "DB::check" in pr else "wrong-pagesize-accepted" if "succeeded on a file" in pr else
+                       "file-modified" if "modified the file" in pr else "other")
+                v.report({"kind": "golden", "class": cls, "legacy": legacy, "file": name},
+                         {"file": fdb, "problem": pr, "how": "jvh golden --file %s --expect %s --seed %d" % (fdb, fjs, seed * 10 + rnd)})
+            if os.path.exists(tf) and os.path.getsize(tf) > 0:
+                lines = read_lines(tf)
+                try:
+                    json.loads(lines[-1])
+                except Exception:
+                    open(tf, "w").write("\n".join(lines[:-1]) + "\n")
+                st = l1.page_trace(v, tf, {"profile": "overflow", "file": name, "seed": seed * 10 + rnd}, also_kv=True,
+                                   sync_rule="1")
+                stats["events"] += st["events"]
+                stats["states"] += st["states"]
+            stats["files"] += 1
+            if len(samples) < 3:
+                samples.append(dict(file=name, legacy=legacy, mismatching_page_sizes=res.get("mismatch")))
+            for x in (out, tf):
+                if os.path.exists(x):
+                    os.remove(x)
+    cov = dict(programs=len(files), disagreements_checked=stats["files"], samples=samples,
+               states=mc["states"] + stats["states"], transitions=mc["transitions"] + stats["events"],
+               traces_validated_against_impl=stats["files"], evaluations=stats["events"], distinct_nontrivial=len(files),
+               rule="8 golden files (4 page sizes x {current, legacy header}) written by the pinned release are recorded "
+                    "behaviours the current code must accept and extend: Trace_KV starts from the recorded logical content "
+                    "(load), Trace_Page from the independent parse of the file (seed: structure, accounting, header choice at "
+                    "open), then a seeded random history is committed on top, validated step by step incl. every page image "
+                    "written, and the final file is parsed again. Every mismatching page size must be refused with the file's "
+                    "bytes and length unchanged. The byte layout itself is encoded by harness/src/parse.rs (trusted).",
+               exhaustive=False)
+    return v.finish(tier, seed, "translation_validation", cov, L1_ASSUME + [
+        "golden files were generated once from commit f5c2214 (see golden/README.md); parse.rs encodes the pinned layout incl. "
+        "the legacy (SHA3-256) header"])
+
+
+def check_C13(tier, seed):
+    """one process at a time: TLC-generated orderings forced on real processes"""
+    v = Verdict("C13")
+    mcs = []
+    for cfg in ("MC_OpenLock_absent_lockfirst.cfg", "MC_OpenLock_exists_lockfirst.cfg"):
+        r = tlc_mc("OpenLock", cfg, timeout=600, workers=6)
+        if not r["ok"]:
+            raise ToolError("OpenLock (lock first) violates %s" % r["violated"])
+        mcs.append(dict(cfg=cfg, states=r["states"], transitions=r["transitions"]))
+    g = tlc_mc("OpenLock", "MC_OpenLock_absent_pinned.cfg", timeout=600, workers=6)
+    if g["ok"] or "NoFailure" not in " ".join(g["violated"]):
+        raise ToolError("vacuity guard: the pinned open order on a missing file should violate NoFailure")
+    live = tlc_mc("OpenLock", "MC_OpenLock_live.cfg", timeout=600, workers=6)
+    if not live["ok"]:
+        raise ToolError("OpenLock violates Waits: %s" % live["violated"])
+    build_harness()
+    plans = [({1, 2}, False, 3), ({1, 2}, True, 3), ({1, 2, 3}, False, 2 if tier == "quick" else 3),
+             ({1, 2, 3}, True, 2 if tier == "quick" else 3)]
+    tot = dict(orderings=0, runs=0, states=0, transitions=0, plans=[])
+    samples = []
+    for procs, exists, pre in plans:
+        mod, cfg = instantiate("Gen_OpenLock", "gol%d%d" % (len(procs), int(exists)),
+                               dict(Procs=procs, FileExists=exists, LockFirst=True, MaxPre=pre),
+                               ["SPECIFICATION GSpec", "CHECK_DEADLOCK FALSE"])
+        beh, s, t = tlc_gen(mod, cfg, workers=4)
+        if tier == "quick" and len(beh) > 900:
+            beh = beh[::max(1, len(beh) // 900)]
+        fn = os.path.join(scratch(), "ol.json")
+        json.dump(beh, open(fn, "w"))
+        out = fn + ".out"
+        p = run_jvh(["procs-run", "--orderings", fn, "--procs", len(procs), "--exists", int(exists), "--out", out,
+                     "--ungated", 40 if tier == "quick" else 600, "--seed", seed], timeout=3000)
+        lines = read_lines(out) if os.path.exists(out) else []
+        for ln in lines:
+            o = json.loads(ln)
+            if o.get("summary"):
+                tot["runs"] += o["runs"]
+                if len(samples) < 2 and o.get("sample"):
+                    samples.append(dict(procs=len(procs), file_exists=exists, observed=o["sample"][0]))
+                continue
+            for pr in o["problems"]:
+                cls = ("overlap" if "at the same time" in pr else "unseen-commit" if "does not see" in pr else
+                       "open-failed" if "failed" in pr or "died" in pr else "blocked" if "did not arrive" in pr or "never finished" in pr
+                       else "other")
+                v.report({"kind": "procs", "class": cls, "procs": len(procs), "file_exists": exists},
+                         {"problem": pr, "ordering": o.get("sched"), "ungated": o.get("ungated"), "results": o.get("results"),
+                          "how": "jvh procs-run --orderings <[{sched: ordering}]> --procs N --exists 0|1"})
+        if p.returncode != 0:
+            v.report({"kind": "hang" if p.returncode == 86 else "abort", "rc": p.returncode, "at": "procs-run"},
+                     {"stderr": p.stderr[-800:]})
+        tot["orderings"] += len(beh); tot["states"] += s; tot["transitions"] += t
+        tot["plans"].append(dict(procs=len(procs), file_exists=exists, max_preemptions=pre, orderings=len(beh)))
+        for x in (fn, out):
+            if os.path.exists(x):
+                os.remove(x)
+    cov = dict(states=sum(m["states"] for m in mcs) + tot["states"] + live["states"],
+               transitions=sum(m["transitions"] for m in mcs) + tot["transitions"],
+               traces_validated_against_impl=tot["runs"], evaluations=tot["runs"], distinct_nontrivial=tot["orderings"],
+               rule="MC: OpenLock.tla (open-or-create, lock, initialise if empty, map, commit a marker, close) for 3 processes, file "
+                    "present or absent: Exclusive, SeesAll, NoFailure, NothingLost, and Waits under weak fairness; the pinned order "
+                    "(create and initialise before locking) violates NoFailure (vacuity guard). spec->impl: every ordering with at "
+                    "most k preemptions (distinct_nontrivial) is forced on real processes gated at the open / init / lock hook "
+                    "points; overlap is observed by effect: monotonic-clock intervals [open returned, about to close] must be "
+                    "disjoint, a process must find the markers of every process that closed before it got in, nobody may fail or "
+                    "hang; plus ungated runs with random start offsets and hold times.",
+               samples=samples, model=dict(safety=mcs, pinned_violates="NoFailure", live=live["states"]), plans=tot["plans"],
+               exhaustive=False)
+    return v.finish(tier, seed, "model_checking", cov, [
+        "TLC; OpenLock.tla transcribes OpenOptions::open / init_file / DBInner::open at the hook points",
+        "orderings are forced at hook points only; flock is observed by its effect (it is a raw syscall)",
+        "CLOCK_MONOTONIC is comparable across processes on this host"])
+
+
 def replay(prop, path):
     """Re-executes the history stored in a replay file and prints what the last step yields."""
     r = json.load(open(path))
